@@ -81,6 +81,12 @@ func (s *rrState) start(base string) {
 			w.Write([]byte("q=" + r.URL.RawQuery))
 			return
 		}
+		if strings.Contains(r.URL.RawQuery, "echo=") {
+			// the request-target exactly as the proxy wrote it
+			w.Header().Set("Cache-Control", "no-store")
+			w.Write([]byte("t=" + r.RequestURI))
+			return
+		}
 		w.Header().Set("Cache-Control", "max-age=60")
 		io.Copy(io.Discard, r.Body)
 		w.Write([]byte("origin-body:" + r.URL.Path))
@@ -146,6 +152,25 @@ func init() {
 				}()
 				if f[0] != "rr" {
 					die("rawreq: bad line %v", f)
+				}
+				if f[1] == "target" {
+					// C08: the origin is asked for the path and query AS THE CLIENT WROTE THEM (dot segments, escapes, empty segments)
+					tgt := unhx(f[2])
+					conn, err := net.DialTimeout("tcp", s.proxyAddr, 3*time.Second)
+					if err != nil {
+						return "dial-failed"
+					}
+					defer conn.Close()
+					conn.SetDeadline(time.Now().Add(4 * time.Second))
+					fmt.Fprintf(conn, "GET http://%s%s HTTP/1.1\r\nHost: %s\r\nConnection: close\r\n\r\n", s.ohost, tgt, s.ohost)
+					resp, err := http.ReadResponse(bufio.NewReader(conn), nil)
+					if err != nil {
+						return "noresponse"
+					}
+					b, _ := io.ReadAll(resp.Body)
+					resp.Body.Close()
+					o.Count("target")
+					return fmt.Sprintf("%d:%s", resp.StatusCode, hx(string(b)))
 				}
 				if f[1] == "qpair" {
 					// two plain proxied GETs that differ only in the query string, through the real listener: each must be
@@ -355,6 +380,20 @@ func init() {
 						q2 = r.Pick([]string{strings.Replace(q1, ";", "&", 1), strings.Replace(q1, "&", ";", 1), strings.Replace(q1, "%3B", ";", 1), strings.Replace(q1, "+", "%20", 1), q1 + "&", "&" + q1})
 					}
 					emit("rr", "qpair", hx(q1+fmt.Sprintf("&n=%d", i)), hx(q2+fmt.Sprintf("&n=%d", i)))
+				}
+				if i%6 == 2 {
+					segs := []string{"a", "b", ".", "..", "", "%2F", "%2E", "%2e%2E", "a%20b", "x.y", "..a", "a..", "%41", "%252F"}
+					tp := "/echop"
+					for k := 0; k < 1+r.Intn(4); k++ {
+						tp += "/" + r.Pick(segs)
+					}
+					if r.Chance(30) {
+						tp += "/"
+					}
+					// a query unique to this op: the exchange is never answered from the store (paths that differ only in
+					// dot-segments rightly share an entry), so what comes back is what the origin was asked for
+					tp += "?" + r.Pick([]string{"x=1&", "a=/../b&", "p=%2F&", "", "a;b&"}) + fmt.Sprintf("echo=%d", i)
+					emit("rr", "target", hx(tp))
 				}
 				if i%50 == 11 {
 					kp := [][2]int{{6, 300}, {40, 40}, {400, 3}, {1500, 0}}[r.Intn(4)]
